@@ -518,7 +518,10 @@ impl AsyncWrite for ServerEnd {
                         return Poll::Pending;
                     }
                     this.wsleep = None;
-                    this.st.lock().unwrap().wplan.pop_front();
+                    let mut st = this.st.lock().unwrap();
+                    st.wplan.pop_front();
+                    // what counts is how long the plan held the write back, not how long the server took to retry
+                    st.write_blocked_total_ns += ns;
                     continue;
                 }
                 Some(WRule::PendEvent { name, ns }) => {
@@ -543,6 +546,8 @@ impl AsyncWrite for ServerEnd {
                     this.wsleep = None;
                     this.wpend_counted = false;
                     st.wplan.pop_front();
+                    let began = st.write_attempt_ns.unwrap_or(ready);
+                    st.write_blocked_total_ns += ready.saturating_sub(began);
                     continue;
                 }
                 Some(WRule::Spurious) => {
@@ -565,9 +570,7 @@ impl AsyncWrite for ServerEnd {
                 return Poll::Ready(Ok(0));
             }
             st.write_blocked = accept < buf.len();
-            if let Some(a) = st.write_attempt_ns.take() {
-                st.write_blocked_total_ns += now.saturating_sub(a);
-            }
+            st.write_attempt_ns = None;
             if st.mid_frame() {
                 this.world.lock().unwrap().probe("server_write_while_frame_half_read");
             }
